@@ -1,4 +1,4 @@
-REPO_FIX_COMMITS = ['2d7a94d', '41c6b34', '15c99e7', '0752c0c', '7f84765', 'af57352', 'e33a24d', '5bdc6b3', '08843a4', '3e03bb0', 'd823a64', '3ba8645', '9eda77c', 'f97803c', '7e803d3', '0853a40', '76123e6', '212f09f', '09399f0', '70a9198', '4fa07f3', '3f55be9', '55bbf09', '507f6b1', '5bd0742', '0f36894', 'eecaabf', '1591c67', 'e92728b', '45f9b63', '259db07', 'c3b6f18', '62531ac', 'b5e523d', '13c730d', '8a61076']
+REPO_FIX_COMMITS = ['2d7a94d', '41c6b34', '15c99e7', '0752c0c', '7f84765', 'af57352', 'e33a24d', '5bdc6b3', '08843a4', '3e03bb0', 'd823a64', '3ba8645', '9eda77c', 'f97803c', '7e803d3', '0853a40', '76123e6', '212f09f', '09399f0', '70a9198', '4fa07f3', '3f55be9', '55bbf09', '507f6b1', '5bd0742', '0f36894', 'eecaabf', '1591c67', 'e92728b', '45f9b63', '259db07', 'c3b6f18', '62531ac', 'b5e523d', '13c730d', '8a61076', '69b0c67']
 NOT_APPLICABLE = {}
 CHECKS = {
  'C18': dict(
